@@ -306,8 +306,9 @@ impl AssemblyCode {
                 match &second {
                     None => return removed_instructions,
                     Some(AsmLine::Instruction(_)) => break,
-                    Some(AsmLine::Label(_)) => {
-                        // If this is a label, restart
+                    Some(AsmLine::Label(_)) | Some(AsmLine::Inline(_, _)) => {
+                        // If this is a label, restart. Inline assembly can change any register as well:
+                        // nothing is known after it either
                         first = iter.next();
                         loop {
                             match &first {
